@@ -4,7 +4,8 @@
       pysmiles.read_smiles, whose result enters as a transcript), and compute_mass.
     Validated against the library / the implementation by the helper stream of ./check C09. *)
 From Coq Require Import String.
-From Coq Require Import List Ascii ZArith Bool Floats.
+From Coq Require Import List Ascii ZArith Bool.
+From Coq Require Import Floats.PrimFloat.
 From CGV Require Import Base.PyBase Base.PyVal Base.NxGraph Gen.HydroGen Hydro.Hydrogens.
 Import ListNotations.
 Open Scope Z_scope.
